@@ -290,7 +290,16 @@ pub fn run(req: &RunRequest) -> Value {
             name: "kst".into(),
             strategy: Strategy::Nts((0..plan.dcs).map(|d| (format!("dc{}", 1 + d), plan.rf)).collect()),
             tablets: true,
-            tables: vec![TableDef { name: "tt".into(), partitioner: None }],
+            // 1 in 3 runs the table of the statement is a materialized view: the client
+            // learns of it through system_schema.views, not system_schema.tables.
+            tables: if tape::chance("c15:view", 1, 3) {
+                vec![
+                    TableDef { name: "tb".into(), partitioner: None, view_of: None },
+                    TableDef { name: "tt".into(), partitioner: None, view_of: Some("tb".into()) },
+                ]
+            } else {
+                vec![TableDef { name: "tt".into(), partitioner: None, view_of: None }]
+            },
         });
         cluster.catalog.push(StmtDef {
             shape: TQ.into(),
